@@ -1,5 +1,7 @@
 from ..abbreviation import parse, Abbreviation, AbbreviationNode, AbbreviationAttribute
 from ..config import Config
+from ..scanner import ScannerException
+from ..token_scanner import TokenScannerException
 from .utils import walk, find_deepest
 
 def parser_options(config: Config):
@@ -40,7 +42,14 @@ def resolve_snippets(abbr: Abbreviation, config: Config):
         if not snippet or child.name in stack:
             return None
 
-        snippet_abbr = parse(snippet, parser_options(config))
+        try:
+            snippet_abbr = parse(snippet, parser_options(config))
+        except (ScannerException, TokenScannerException) as err:
+            # NB: position of error is a position in snippet, not in abbreviation
+            err.message = 'Invalid snippet "%s": %s' % (child.name, err.message)
+            err.pos = None
+            raise
+
         stack.append(child.name)
         walk_resolve(snippet_abbr, resolve, config)
         stack.pop()
